@@ -26,9 +26,14 @@ func TestC06_concurrent(t *testing.T) {
 		ID: "C06", Quick: 400, Thor: 20_000,
 		Rule: "2-8 real threads each feeding drop samples to one AIMD limit; the final estimate must equal the back-off formula applied (threads x drops) times (no lost update); non-trivial = the sequential result is above the floor or was reached within the last thread's share",
 		Gen: func(t *rapid.T) c06cCase {
-			c := c06cCase{Cfg: genLossCfg(t, []string{"aimd"}), Workers: rapid.IntRange(2, 8).Draw(t, "workers"), Drops: rapid.IntRange(1, 40).Draw(t, "drops")}
+			c := c06cCase{Cfg: genLossCfg(t, []string{"aimd"}), Workers: rapid.IntRange(2, 8).Draw(t, "workers"), Drops: rapid.OneOf(rapid.IntRange(1, 40), rapid.IntRange(50, 1500)).Draw(t, "drops")}
 			c.Cfg.Initial = rapid.OneOf(rapid.IntRange(50, 3000), rapid.IntRange(1000, 100000)).Draw(t, "initial")
 			c.Cfg.Backoff = rapid.SampledFrom([]float64{0.999, 0.99, 0.95, 1}).Draw(t, "slowBackoff")
+			if c.Drops > 40 {
+				// long overlapping bursts: keep the sequential result well above the floor so that a lost update shows
+				c.Cfg.Initial = rapid.IntRange(20_000, 400_000).Draw(t, "bigInitial")
+				c.Cfg.Backoff = rapid.SampledFrom([]float64{1, 1, 0.9999, 0.999}).Draw(t, "slowestBackoff")
+			}
 			return c
 		},
 		Run: func(_ *testing.T, c c06cCase) kit.Outcome {
